@@ -329,7 +329,7 @@ pub fn main(opts: &Opts) -> i32 {
         for op in seq {
             let (l, i, o) = s.apply(op, &mut log);
             log.count(&format!("op.{}", l.split(' ').next().unwrap_or("")));
-            if l.starts_with("range") && l.len() < 100 {
+            if l.starts_with("range") && l.len() > 34 && l.len() < 100 {
                 log.sample(format!("{l} -> {i}"));
             }
             log.push3(l, i, o);
